@@ -102,6 +102,17 @@ FieldInjections(f) ==
           THEN {Inj("proto3_group", "group_proto3", set([x EXCEPT !.type = KGroup]))} ELSE {})
     \cup (IF f.syntax # "proto3" /\ x.label = 1 THEN {Inj("proto3_optional_outside_proto3", "proto3_optional", set([x EXCEPT !.p3opt = TRUE]))} ELSE {})
     \cup (IF f.syntax = "proto3" /\ x.label = 3 THEN {Inj("proto3_optional_repeated", "proto3_optional", set([x EXCEPT !.p3opt = TRUE]))} ELSE {})
+    \* a closed enum of another file where only open enums may be used
+    \cup (IF f.syntax = "proto3" /\ x.label = 1 /\ x.oneof = 0 /\ ~x.hd /\ ~m.mapentry /\ x.type \notin {KMessage, KGroup}
+          THEN {Inj("proto3_field_of_closed_enum", "proto3_closed_enum",
+                    [f EXCEPT !.deps = <<DepImport>>, !.imps = <<DepMsg, DepClosed, DepOpen>>,
+                              !.msgs[i].fields[j] = [x EXCEPT !.type = KEnum, !.tname = ".dep.DC"]])}
+          ELSE {})
+    \cup (IF f.syntax = "editions" /\ x.label = 1 /\ x.oneof = 0 /\ ~x.hd /\ ~m.mapentry /\ x.type \notin {KMessage, KGroup}
+          THEN {Inj("implicit_field_of_closed_enum", "implicit_closed_enum",
+                    [f EXCEPT !.deps = <<DepImport>>, !.imps = <<DepMsg, DepClosed, DepOpen>>,
+                              !.msgs[i].fields[j] = [x EXCEPT !.type = KEnum, !.tname = ".dep.DC", !.feat.fp = "IMPLICIT"]])}
+          ELSE {})
     \* presence / enum combinations under editions
     \cup (IF f.syntax = "editions" /\ x.hd /\ x.oneof = 0 /\ x.type # KMessage
           THEN {Inj("default_with_implicit_presence", "default_implicit", set([x EXCEPT !.feat.fp = "IMPLICIT"]))} ELSE {})
